@@ -65,14 +65,15 @@ pub fn seed_from_env() -> u64 {
 /// Number of runs per property and tier (fixed, so the unchanged tree sees the same runs every time).
 pub fn budget(prop: &str, tier: &str) -> u64 {
     let quick = match prop {
-        "C06" => 40_000,
-        "C17" => 40_000,
-        "C14" => 20_000,
-        "C12c" => 200_000,
-        _ => 60_000,
+        "C06" => 60_000,
+        "C17" => 60_000,
+        "C14" => 40_000,
+        "C12c" => 300_000,
+        "C13" => 150_000,
+        _ => 100_000,
     };
     let scale = std::env::var("VERIF_SCALE").ok().and_then(|s| s.parse::<f64>().ok()).unwrap_or(1.0);
-    let n = if tier == "thorough" { quick * 30 } else { quick };
+    let n = if tier == "thorough" { quick * 20 } else { quick };
     ((n as f64) * scale) as u64
 }
 
